@@ -517,8 +517,19 @@ class DocumentationAggregator(CMakeListener):
         :param docstring: Cleaned docstring.
         """
 
-        args = ctx.single_argument() + ctx.compound_argument()
-        args = [val.getText() for val in args]
+        def argument_text(arg: ParserRuleContext) -> str:
+            # Compound (parenthesized) arguments keep their inner arguments separated
+            if isinstance(arg, CMakeParser.Compound_argumentContext):
+                return "(" + " ".join(argument_text(a) for a in arguments_of(arg)) + ")"
+            return arg.getText()
+
+        def arguments_of(parent: ParserRuleContext) -> List[ParserRuleContext]:
+            # Arguments in source order, regardless of whether they are single or compound
+            return [child for child in parent.getChildren()
+                    if isinstance(child, (CMakeParser.Single_argumentContext,
+                                          CMakeParser.Compound_argumentContext))]
+
+        args = [argument_text(arg) for arg in arguments_of(ctx)]
         self.documented.append(GenericCommandDocumentation(
             command_name, docstring, args))
 
